@@ -64,13 +64,20 @@ def _run_variant(args):
         if err:
             return (name, kind, "stale", err, [])
         mod = importlib.import_module(modname)
+        ctx = None
         try:
             repo = Repo(tmp)
             ctx = Ctx(prop, "quick", repo)
             mod.run(ctx)
             ctx.check_minimums()
         except AnalysisError as e:
-            return (name, kind, "analysis-error", str(e), [])
+            # as in bsa.main: obligations that already failed are reported even when the analysis could not be completed
+            known = {(k["rule"], k["construct"]) for k in load_known() if k.get("property") == prop}
+            new = list(dict.fromkeys((o["rule"], o["construct"]) for o in (ctx.obligations if ctx is not None else []) if not o["ok"] and (o["rule"], o["construct"]) not in known))
+            hit = [x for x in new if any(x[0].startswith(p) for p in expect)]
+            if kind == "mutant" and hit:
+                return (name, kind, "killed", f"(analysis incomplete: {e})", new[:6])
+            return (name, kind, "analysis-error", str(e), new[:6])
         known = {(k["rule"], k["construct"]) for k in load_known() if k.get("property") == prop}
         new = [(o["rule"], o["construct"]) for o in ctx.obligations if not o["ok"] and (o["rule"], o["construct"]) not in known]
         new = list(dict.fromkeys(new))
